@@ -406,3 +406,30 @@ def update_model_and_seed(ctx, dim, gen):
     fresh = _q(RandMeth, mod2, mode_no=2, seed=s2) if gen == "RandMeth" else \
         _q(Fourier, mod2, period=per, mode_no=[2] * dim, seed=s2)
     ctx.ensure("state=fresh(new-seed,new-model)", views_equal(ctx, gen_view(g), gen_view(fresh)))
+
+
+@contract(P, "SRF.__call__[Fourier]/in-place-model-change-equals-fresh",
+          params=[{"dim": d, "what": w, "tol": "beyond"} for d in (1, 2) for w in ("var", "len_scale", "anis", "rescale")
+                  if not (d == 1 and w == "anis")],
+          functions=["field/srf.py:SRF.__call__", "field/generator.py:Fourier.update", "covmodel/tools.py:compare"],
+          nsamples=1, search=20)
+def srf_inplace_fourier(ctx, dim, what, tol):
+    """in-place change of the field's own model with the Fourier generator (the generator must keep
+    a PRIVATE copy of the model, otherwise the change goes unnoticed)"""
+    mod = sym_model(ctx, dim, nugget=False)
+    s = ctx.integer("seed", lo=1, hi=1000)
+    per = ctx.reals("per", dim, pos=True)
+    for p in per:
+        ctx.require(ctx.gt(p, 0))
+    srf = _q(gs.SRF, mod, generator="Fourier", period=per, mode_no=[2] * dim, seed=s)
+    x = [[0.25, 1.5]] * dim
+    srf(x)
+    mod2, v = _changed_model(ctx, mod, what, dim, tol)
+    if what == "anis":
+        srf.model.anis = [v] + list(mod.anis[1:])
+    else:
+        setattr(srf.model, what, v)
+    got = srf(x)
+    fresh = _q(gs.SRF, mod2, generator="Fourier", period=per, mode_no=[2] * dim, seed=s)(x)
+    ctx.ensure("field=fresh-generator-field", ctx.eq(got, fresh))
+    ctx.ensure("generator-keeps-a-private-model-copy", srf.generator.model is not srf.model)
